@@ -975,6 +975,31 @@ func callBuiltin(caller *frame, callpos token.Pos, fn *ssa.Builtin, args []value
 		chanClose(args[0])
 		return nil
 
+	case "clear": // clear(map) / clear(slice)
+		switch x := args[0].(type) {
+		case *omap:
+			if x != nil {
+				x.ents = nil
+			}
+		case []value:
+			var et types.Type
+			if sig, ok := fn.Type().(*types.Signature); ok && sig.Params().Len() > 0 {
+				if sl, ok := sig.Params().At(0).Type().Underlying().(*types.Slice); ok {
+					et = sl.Elem()
+				}
+			}
+			for i := range x {
+				if et != nil {
+					x[i] = zero(et)
+				} else {
+					x[i] = nil
+				}
+			}
+		default:
+			panic(unsupported{fmt.Sprintf("clear of %T", x)})
+		}
+		return nil
+
 	case "delete": // delete(map[K]value, K)
 		switch m := args[0].(type) {
 		case *omap:
